@@ -599,7 +599,7 @@ pub fn insn_strategy(set: FormSet) -> BoxedStrategy<Insn> {
 
 /// run a form set under proptest in 16 shards; failures are shrunk and reported
 pub fn run_forms(ctx: &Ctx, set: FormSet) {
-    let cases_total: u32 = ctx.tier.pick(48_000, 1_600_000);
+    let cases_total: u32 = ctx.tier.pick(320_000, 4_000_000);
     run_forms_n(ctx, set, cases_total, &format!("{:?}", set));
 }
 
